@@ -106,6 +106,8 @@ class C11(BaseCheck):
   def _monitor(self, env, out, conns, frame_events, facts, request_types=(2,)):
     """Replay the event log: U per connection."""
     U = {}
+    self.answered = []      # (conn, tag, seq) each time an unanswered tag was answered
+    self.written = {}       # id(frame event) -> (conn, tag, send seq of its first byte)
     pending = {}      # conn -> list of (end_offset, tag)
     maxtag = {}
     reuse = 0
@@ -128,6 +130,7 @@ class C11(BaseCheck):
             break
         timeline.append((wvt, 0, wseq, e))
         wvt_of[id(e)] = wvt
+        self.written[(e['conn'], e.get('start'))] = (e['tag'], wseq)
       elif k in ('srv.write', 'net.recv'):
         timeline.append((e['vt'], 1 if k == 'srv.write' else 2, e['seq'], e))
     timeline.sort(key=lambda x: x[2])
@@ -154,6 +157,7 @@ class C11(BaseCheck):
           _, tag = lst.pop(0)
           if tag in U.setdefault(c, set()):
             U[c].discard(tag)
+            self.answered.append((c, tag, e['seq']))
           else:
             early[(c, tag)] = e['vt']
       elif k == frame_events:
@@ -269,30 +273,53 @@ class C11(BaseCheck):
       if r['completions'] and isinstance(r['completions'][0]['payload'], ScalesTimeout):
         n_to += 1
         classes.add('timeout-after-send' if r['cid'] in sent_cids else 'timeout-before-send')
-    # bounded consumption: max tag <= 1 + peak(in flight + timed-out unanswered)
-    peak = cur = 0
-    unanswered_timeouts = 0
+    # bounded consumption: highest tag <= 1 + peak over time of the tags that may legitimately
+    # be held: calls issued and not completed; timed-out calls whose request was written, until
+    # the peer's answer to that tag has been read; timed-out calls not (yet) written, until a
+    # request issued later appears on the wire (the FIFO send loop has dropped them by then).
+    req_of = {}
+    for s_ in w.servers:
+      for q in s_.requests:
+        a0 = q['call'][1][0] if q.get('call') and q['call'][1] else ''
+        if isinstance(a0, str) and a0.startswith('c'):
+          req_of.setdefault(int(a0[1:a0.index('-')]), q)
+    first_written_after = []      # (issue_seq, written_seq) of every written call
+    for r in w.calls:
+      q = req_of.get(r['cid'])
+      if q is not None:
+        wtag, wseq = self.written.get((q['conn'], q['start']), (None, None))
+        if wseq is not None:
+          first_written_after.append((r['issue_seq'], wseq))
+    first_written_after.sort()
+    INF = float('inf')
     evs = []
     for r in w.calls:
       evs.append((r['issue_seq'], +1))
-      if r['completions']:
-        c0 = r['completions'][0]
-        # a timed-out call may keep its tag: until the peer answers if it was written,
-        # or until the (possibly stalled) send loop drops it if it was not
-        keep = isinstance(c0['payload'], ScalesTimeout)
-        if keep:
-          unanswered_timeouts += 1
+      if not r['completions']:
+        continue
+      c0 = r['completions'][0]
+      release = c0['seq']
+      if isinstance(c0['payload'], ScalesTimeout):
+        q = req_of.get(r['cid'])
+        wtag, wseq = self.written.get((q['conn'], q['start']), (None, None)) if q is not None else (None, None)
+        if wseq is not None:
+          ans = [sq for (c_, t_, sq) in self.answered if c_ == q['conn'] and t_ == q['tag'] and sq > wseq]
+          release = max(release, min(ans)) if ans else INF
         else:
-          evs.append((c0['seq'], -1))
-    for _, d in sorted(evs):
+          later = [ws for (isq, ws) in first_written_after if isq > r['issue_seq'] and ws > c0['seq']]
+          release = min(later) if later else INF
+      if release != INF:
+        evs.append((release, -1))
+    peak = cur = 0
+    for _, d in sorted(evs, key=lambda x: (x[0], -x[1])):
       cur += d
       peak = max(peak, cur)
     out.obligations += 1
     hi = max(maxtag.values() or [1])
-    if hi > 1 + peak + len(adv_classes) * 0:
-      out.violate('tag:unbounded-consumption', 'highest tag %d after %d calls; peak of calls in flight + timed-out '
-                  'unanswered requests was %d' % (hi, len(w.calls), peak), facts,
-                  {'maxtag_per_conn': maxtag, 'timeouts': n_to})
+    if hi > 1 + peak:
+      out.violate('tag:unbounded-consumption', 'highest tag %d after %d calls; at most %d tags could be held at any '
+                  'time (calls in flight + timed-out requests not yet answered or dropped)' % (hi, len(w.calls), peak),
+                  facts, {'maxtag_per_conn': maxtag, 'timeouts': n_to})
     out.obligations += 1
     if self.contract_failures:
       f = self.contract_failures[0]
